@@ -70,13 +70,14 @@ class AdversarialExecutor(DagExecutor):
     """
 
     def __init__(self, order="fwd", repeats=0.0, pickle_p=0.0, crash_after_tasks=None, seed=0, per_task=None,
-                 late_repeats=True, **kwargs):
+                 late_repeats=True, recreate=False, **kwargs):
         super().__init__(**kwargs)
         self.order, self.repeats, self.pickle_p = order, repeats, pickle_p
         self.crash_after_tasks = crash_after_tasks
         self.rng = random.Random(seed)
         self.per_task = per_task
         self.late_repeats = late_repeats
+        self.recreate = recreate     # re-run array-creation tasks after every operation and at the very end
         self.log = []          # (op, index, mappable item repr, kind)
         self.ntasks = 0
         self.entered = False
@@ -110,7 +111,14 @@ class AdversarialExecutor(DagExecutor):
         self.entered = True
         obs.mark("exec_enter")
         late = []   # tasks to repeat after later operations have run
+        create = None
         for name, node in runnable_ops(dag):
+            if name == "create-arrays":
+                create = (node["pipeline"], list(node["pipeline"].mappable))
+            elif self.recreate and create is not None and create[1]:
+                # a duplicate / zombie array-creation task arriving late (open-or-create must not wipe anything)
+                j = self.rng.randrange(len(create[1]))
+                self._run_one("create-arrays", create[0], create[1][j], j, "dup-late")
             handle_operation_start_callbacks(callbacks, name)
             pipeline = node["pipeline"]
             items = list(pipeline.mappable)
@@ -144,6 +152,9 @@ class AdversarialExecutor(DagExecutor):
                     self._run_one(n2, p2, m2, i2, "dup-late")
         for n2, p2, m2, i2 in late:
             self._run_one(n2, p2, m2, i2, "dup-final")
+        if self.recreate and create is not None:
+            for j, m in enumerate(create[1]):
+                self._run_one("create-arrays", create[0], m, j, "dup-final")
         obs.mark("exec_exit")
 
 
